@@ -56,3 +56,16 @@ add("C06", "exploration",
     "runtime monitor: shadow model of the packet train fed by a recording payloader wrapper; injected-clock reference for abs-send-time (hook) or bracketing; Marshal/Unmarshal oracle; race detector + gap-free check on a shared sequencer",
     "Held on 40k (quick) / 3M (thorough) operation sequences over ten payloaders, boundary MTUs, wrap-adjacent sequencers and adversarial clock instants; 300 / 20k shared-sequencer runs on the race build.",
     "Fragments are what the wrapped payloader returned; padding packets' timestamp and size-vs-MTU are not judged (the property does not fix them).")
+
+add("C10", "exploration",
+    "runtime monitor: differential against an independent RFC 6184 reassembler (payloader side) and an independent RFC 6184 encoder (depacketizer side); expected Annex-B/AVC framing; IsPartitionHead vs first-payload-of-unit",
+    "Held on 60k/6M access-unit sequences x MTU 3.. x StapA x AVC and 40k/4M independently encoded streams (single, STAP-A, FU-A with empty fragments).",
+    "NAL bodies without start-code emulation; parameter sets only as adjacent SPS,PPS pairs followed by an emitted unit.")
+add("C13", "exploration",
+    "runtime monitor: differential against an independent AV1 RTP aggregation parser/reassembler, three-way OBU comparison (reference, AV1Depacketizer, AV1Packet+frame assembler); exhaustive LEB128 and OBU-header strata",
+    "Held on 80k/8M OBU sequences x MTU 2..; LEB128 on every v<2^17, boundary windows and a 2^20-point stride; all 2^16 OBU header byte pairs.",
+    "N bit not judged; layer of an OBU whose extension byte falls into the next packet is not attributed.")
+add("C15", "fault_enumeration",
+    "runtime monitor with fault enumeration: every delivery subset (2^n for n<=10) of an earlier frame, garbage and second lossy frames as history, twin against a fresh receiver on the following intact frame",
+    "All 2^n loss subsets for trains of up to 10 packets over 2.5k/250k frame pairs per codec (about 1M / 100M injected loss patterns).",
+    "In-order delivery; the later frame is complete; H264 trains from the independent encoder, AV1 trains from the library payloader.")
